@@ -50,6 +50,12 @@ end
 instance : Inhabited Ty := ⟨.void⟩
 instance : Inhabited Expr := ⟨.null {}⟩
 
+/-- the node's `line`/`column` -/
+def exprPos : Expr → P
+  | .lit _ _ p | .null p | .var _ p | .bin _ _ _ p | .un _ _ p | .cast _ _ p | .postfix _ _ p | .call _ _ p
+  | .member _ _ p | .new _ _ p | .this p | .super p | .index _ _ p | .arrLit _ p | .paren _ p
+  | .measure _ p | .assign _ _ p | .memberAssign _ _ _ p | .arrAssign _ _ _ p => p
+
 inductive Stmt where
   | varDecl (name : String) (ty : Ty) (init : Option Expr) (anns : List Ann)
       (isFinal isTracked : Bool) (p : P)
